@@ -37,10 +37,13 @@ GStep(st, pre, gg) ==
       dropped(i, j, p) == st.a = "Proxy" /\ st.n = j /\ st.d = i /\ i # j /\ st.ev = p
                           /\ (pre.inst[i][j] \notin {"CHECKED", "RUNNING"} \/ pre.inst[j][i] \notin Active)
       miss(i, j, p) == notsent(i, j, p) \/ dropped(i, j, p)
-      pulled(i, j) == st.a = "Proxy" /\ st.n = i /\ st.d = j /\ st.k = "REQUEST:0"
+      \* (a pull served while j is down fails: no result will come)
+      pulled(i, j) == st.a = "Proxy" /\ st.n = i /\ st.d = j /\ st.k = "REQUEST:0" /\ pre.alive[j]
       arrived(i, j) == st.a = "Proxy" /\ st.n = i /\ st.d = i /\ st.k = "NOTIFICATION:3:n" \o ToString(j)
       loaded(i, j) == arrived(i, j) /\ pre.inst[i][j] = "CHECKING"
-      gone(i, j) == ~st.alive[i] \/ ~st.alive[j] \/ (st.a = "Boot" /\ (st.n = i \/ st.n = j))
+      gonei(i) == ~st.alive[i] \/ (st.a = "Boot" /\ st.n = i)
+      gonej(j) == ~st.alive[j] \/ (st.a = "Boot" /\ st.n = j)
+      gone(i, j) == gonei(i) \/ gonej(j)
       \* j restarted before i noticed that it was gone: i keeps its records of the previous incarnation (no new
       \* handshake) - the reset of the process table of j is an event i never gets
       unnoticed(i, j) == st.a = "Boot" /\ st.n = j /\ i # j /\ st.alive[i] /\ pre.inst[i][j] \in Active
@@ -49,9 +52,13 @@ GStep(st, pre, gg) ==
                  ELSE IF gone(i, j) THEN FALSE
                  ELSE IF loaded(i, j) THEN gg.lap[i][j][p]
                  ELSE gg.lost[i][j][p] \/ miss(i, j, p)]]],
+      \* (the result of a pull that is still waiting in the FIFO of i when j goes down / comes back describes the
+      \*  PREVIOUS incarnation of j: whatever it says is stale - no incarnation number tells i so)
       lap |-> [i \in I |-> [j \in I |-> [p \in P |->
                  IF unnoticed(i, j) THEN TRUE
-                 ELSE IF gone(i, j) \/ (pulled(i, j) /\ ~gg.out[i][j]) THEN FALSE
+                 ELSE IF gonei(i) THEN FALSE
+                 ELSE IF gonej(j) THEN gg.out[i][j]
+                 ELSE IF pulled(i, j) /\ ~gg.out[i][j] THEN FALSE
                  ELSE gg.lap[i][j][p] \/ miss(i, j, p)]]],
       knew |-> [i \in I |-> [j \in I |-> [p \in P |->
                  IF st.a = "Crash" /\ st.n = j /\ i # j
@@ -66,8 +73,8 @@ GStep(st, pre, gg) ==
                       /\ \A x \in I \ {j} : st.truth[p][x] = pre.truth[p][x] \/ st.truth[p][x] = "NONE" \/ pre.truth[p][x] = "NONE"
                       /\ \A x \in I : ~arrived(i, x)]]],
       out |-> [i \in I |-> [j \in I |->
-                 IF unnoticed(i, j) THEN gg.out[i][j]
-                 ELSE IF gone(i, j) \/ arrived(i, j) THEN FALSE ELSE gg.out[i][j] \/ pulled(i, j)]]]
+                 \* (the FIFO of i is lost with i only)
+                 IF gonei(i) \/ arrived(i, j) THEN FALSE ELSE gg.out[i][j] \/ pulled(i, j)]]]
 
 Quiescent(st) == /\ st.pend = 0
                  /\ \A i \in I : st.alive[i] => /\ st.fsm[i] \in Serving
